@@ -691,7 +691,10 @@ def detect_bad_channels(raw, fs, similarity_threshold=(-0.5, 1), psd_hf_threshol
         :return: np.array
         """
         ntap = int(np.ceil(nmed / 2))
-        xf = np.r_[np.zeros(ntap) + x[0], x, np.zeros(ntap) + x[-1]]
+        # the trend is extended beyond both ends: at the top by the last value (a channel outside of the brain
+        # continues the trend), at the tip by a robust estimate so that a faulty first channel stands out from
+        # the trend instead of setting it
+        xf = np.r_[np.zeros(ntap) + np.median(x[:nmed]), x, np.zeros(ntap) + x[-1]]
         # assert np.all(xcorf[ntap:-ntap] == xcor)
         xf = scipy.signal.medfilt(xf, nmed)[ntap:-ntap]
         return x - xf
